@@ -51,10 +51,10 @@ theorem execExport_fault_reported (c : Bytes) (kv : KVS) (φ : Faults)
     (h : (execExport likeFn fnFam c kv φ).2.2.1 = true) : (execExport likeFn fnFam c kv φ).1.isErr = true := by
   unfold execExport at *
   have h1 := CV.fault_reported false (Op.body likeFn fnFam (.hasCollection c)) (prop_body likeFn fnFam _) φ kv
-  have h2 := CV.fault_reported false (Op.body likeFn fnFam (.findAll { coll := c })) (prop_body likeFn fnFam _) (fun _ => false) kv
+  have h2 := CV.fault_reported false (Op.body likeFn fnFam (.findAll { coll := c })) (prop_body likeFn fnFam _) (fun n => φ (n + 2)) kv
   revert h h1 h2
   generalize withTx false (Op.body likeFn fnFam (.hasCollection c)) φ kv = r1
-  generalize withTx false (Op.body likeFn fnFam (.findAll { coll := c })) (fun _ => false) kv = r2
+  generalize withTx false (Op.body likeFn fnFam (.findAll { coll := c })) (fun n => φ (n + 2)) kv = r2
   obtain ⟨o1, s1, f1, t1⟩ := r1
   obtain ⟨o2, s2, f2, t2⟩ := r2
   intro h h1 h2
